@@ -178,6 +178,7 @@ func RunWorker(t *testing.T) {
 		os.Exit(2)
 	}
 	if rp := os.Getenv("VERIF_REPLAY"); rp != "" {
+		KnownList = LoadKnown(os.Getenv("VERIF_KNOWN"))
 		replayMain(t, rp)
 		return
 	}
